@@ -54,7 +54,7 @@ structure Sh where
   inited : Bool := false   -- _inited
   mtxOk : Bool := false    -- the mutex object has been created
   owner : Option Nat := none
-  ctr : Nat := 0           -- _ctr (modulo 2^64 on decrement)
+  ctr : Nat := 0           -- _ctr (never decremented at 0: theorem `no_underflow`; overflow at 2^64 references not modelled)
   alive : Bool := false    -- _state != 0
   epoch : Nat := 0         -- ghost: number of keys installed so far
   idx : Nat := 0           -- position in the current CTR stream
@@ -150,8 +150,8 @@ def stepLocal (sh : Sh) (T : TState) (t ch : Nat) : Option (Sh × TState) :=
   -- rngClose
   | .xLock => if sh.owner = none then some ({ sh with owner := some t }, { T with pc := .xDec }) else none
   | .xDec =>
-    some ({ sh with ctr := (sh.ctr + 2 ^ 64 - 1) % 2 ^ 64 },
-      { T with pc := if (sh.ctr + 2 ^ 64 - 1) % 2 ^ 64 = 0 then .xFree else .xUnlock, refs := T.refs - 1 })
+    some ({ sh with ctr := sh.ctr - 1 },
+      { T with pc := if sh.ctr - 1 = 0 then .xFree else .xUnlock, refs := T.refs - 1 })
   | .xFree => some ({ sh with alive := false }, { T with pc := .xUnlock })
   | .xUnlock => some ({ sh with owner := none }, T.done rOK)
   -- rngStepR / rngStepR2 / rngRekey
